@@ -197,6 +197,10 @@ def c03(case, o, res, prefix="C03"):
             res.fail(prefix + ".obj", "soln.obj=%r but sum(resid^2)+h=%r" % (obj, ref))
     else:
         tolo = 16 * EPS * (f + abs(hval)) + 1e-300
+        if case.get("reg") and o.nshifts:
+            # soln.x is known only to the rounding of the base-point arithmetic (C03.x); h is Lipschitz, so h(soln.x)
+            # is known to lam*n times that rounding. Zero without base shifts.
+            tolo += float(case["reg"]["lam"]) * case["n"] * (2 * o.nshifts) * EPS * scale
         res.margin(prefix + ".obj", abs(obj - ref) / tolo)
         if not (abs(obj - ref) <= tolo):
             res.fail(prefix + ".obj", "soln.obj=%r but sum(resid^2)+h(x)=%r (tol %r)" % (obj, ref, tolo))
